@@ -23,6 +23,9 @@ def run(repo, report, tier):
     report.guard("C17.R2", "get_info_records", r2_partition, repo, report)
     report.guard("C17.R3", "coordinate frame", r3_frame, repo, report)
     report.guard("C17.R3", "paired --revcomp", r3_paired_swap, repo, report)
+    report.rule("C17.R4", "the adapter-name column names an adapter: every adapter class that takes an optional name leaves its constructor with self.name = the given name, or a generated one when none was given, on every path (a base-class constructor that stores the raw argument must not run afterwards)",
+                "rows of an unnamed adapter carry 'none' (or the wrong name) in the adapter-name column")
+    report.guard("C17.R4", "adapter names", r4_names, repo, report)
     report.assume("a match yields at least one info record (LinkedMatch's constructor asserts that a part is present)")
     report.notes.append("Not decided: agreement of the printed error count with the aligner (C01).")
 
@@ -231,3 +234,54 @@ def r3_paired_swap(repo, report):
               facts={"swapping_paths": len(swapped), "paths_that_exchange_original_read": len(exchanged), "writer_slices": "info.original_read" if writer_uses_original else "the processed read", "writer_reverse_complements_when_is_rc": writer_flips},
               expected="after a swap info1/info2.original_read are the swapped input records (and a swapped pair is not reverse-complemented by the writer)", loc=repo.loc(fn), fact_key="paired-swap-original-read", cases=len(swapped),
               why="" if ok else "the info rows of a swapped pair are cut from the reverse complement of the ORIGINAL R1 although the record in slot 1 is the former R2: -g ^AACC -G ^GGCC --revcomp on R1 GGCCTTTTTCCCCC / R2 AACCAAAAAGGGGG writes AAAAAGGGGG but the info row shows GGGG + GAAAAAGGCC")
+
+
+def r4_names(repo, report):
+    n = 0
+    for cls in [repo.cls("SingleAdapter"), repo.cls("LinkedAdapter")]:
+        if cls is None:
+            continue
+        init = cls.methods.get("__init__")
+        if init is None:
+            continue
+        ps = params(init)
+        if "name" not in ps:
+            continue
+
+        def hook(ex, node, env, cls=cls):
+            if src(node.func) == "super().__init__":
+                # Matchable.__init__(self, name, ...) stores its first argument in self.name (checked below)
+                arg = node.args[0] if node.args else next((k.value for k in node.keywords if k.arg == "name"), None)
+                if arg is not None:
+                    v = ex.ev(arg, env)
+                    env["self.name"] = v
+                    ex.effect("store", "self.name", vkey(v), node)
+                return Const(None)
+            if chain(node.func) == "_generate_adapter_name":
+                return Obj("GENERATED", nonnull=True)
+            return None
+
+        env = {"self": Obj("self", nonnull=True)}
+        for p_ in ps[1:]:
+            env[p_] = Obj(p_.upper())
+        try:
+            rows = explore(repo, strip_docstring(init.body), env, call_hook=hook, inline=False, max_rows=4000)
+        except Unrecognised as u:
+            report.unrecognised("C17.R4", f"{cls.name}.__init__", u.what, repo.loc(init))
+            continue
+        bad = []
+        for r in rows:
+            if r.exit[0] == "raise":
+                continue
+            final = [e[2] for e in r.effects if e[0] == "store" and e[1] == "self.name"]
+            want = "GENERATED" if r.valuation.get("isnone:NAME") is True else "NAME" if r.valuation.get("isnone:NAME") is False else None
+            if not final or want is None or str(final[-1]) != want:
+                bad.append({"name_given": r.valuation.get("isnone:NAME") is False, "self.name_at_the_end": str(final[-1]) if final else None})
+        n += 1
+        report.ob("C17.R4", f"{cls.name}.__init__ leaves the adapter named", not bad, facts={"paths": len(rows), "problems": bad[:2]}, loc=repo.loc(init),
+                  expected="self.name = _generate_adapter_name() if name is None else name, and nothing overwrites it afterwards",
+                  why=(f"with name given={bad[0]['name_given']} the constructor ends with self.name = {bad[0]['self.name_at_the_end']}" if bad else ""))
+    c, m_init = repo.method("Matchable", "__init__")
+    ok = m_init is not None and any(isinstance(x, ast.Assign) and chain(x.targets[0]) == "self.name" and chain(x.value) == params(m_init)[1] for x in ast.walk(m_init))
+    report.ob("C17.R4", "Matchable.__init__ stores its name argument", ok, facts={}, expected="self.name = name", loc=repo.loc(m_init) if m_init else "")
+    report.floor("C17.R4", "adapter constructors with an optional name", n, 2)
